@@ -371,7 +371,7 @@ inst!(pp_g8_find_n4, [props=C12 xprops=C05+C14 tier=thorough cfg=x86std t=3600 r
 inst!(pp_g8_pre_n4, [props=C11 xprops=C05+C14 tier=thorough cfg=x86std t=3600 role=packedpair-generic-prefilter], 12, packed::generic::<8, 4, 28>(true));
 inst!(pp_g2_find_n3, [props=C12 xprops=C05+C14 tier=thorough cfg=x86std t=3600 role=packedpair-generic-find], 8, packed::generic::<2, 3, 11>(false));
 inst!(pp_g2_pre_n3, [props=C11 xprops=C05+C14 tier=thorough cfg=x86std t=3600 role=packedpair-generic-prefilter], 8, packed::generic::<2, 3, 11>(true));
-inst!(pp_portable_n3, [props=C11 xprops=C05+C14 tier=quick cfg=generic t=1500 role=packedpair-portable-prefilter uw=find_prefilter.0:10;find_raw.0:3;byte_by_byte:10;oracle:6], 4, packed::portable::<3, 9>(9));
+inst!(pp_portable_n3, [props=C11+C09 xprops=C05+C14 tier=quick cfg=generic t=1500 role=packedpair-portable-prefilter uw=find_prefilter.0:10;find_raw.0:3;byte_by_byte:10;oracle:6], 4, packed::portable::<3, 9>(9));
 inst!(pp_portable_n2, [props=C11 xprops=C05+C14 tier=thorough cfg=generic t=1500 role=packedpair-portable-prefilter uw=find_prefilter.0:10;find_raw.0:3;byte_by_byte:10;oracle:6], 4, packed::portable::<2, 9>(9));
 inst!(pp_portable_n4, [props=C11 xprops=C05+C14 tier=thorough cfg=generic t=1500 role=packedpair-portable-prefilter uw=find_prefilter.0:10;find_raw.0:3;byte_by_byte:10;oracle:6], 4, packed::portable::<4, 9>(9));
 
@@ -497,10 +497,10 @@ inst!(b_rk_rev_4_10, [props=C12 xprops=C05+C14 tier=thorough cfg=x86std t=5400 r
 inst!(m_oneshot_fwd_4_10, [props=C03 xprops=C05+C14 tier=thorough cfg=x86std t=5400 role=memmem-find-oneshot uw=is_equal_raw:3;Hash:6;rabinkarp::Finder::new:6;rabinkarp::FinderRev::new:6;find_raw:12;rfind_raw:12;oracle:6], 4, meta::oneshot::<4, 10>(false));
 inst!(m_oneshot_rev_4_10, [props=C04 xprops=C05+C14 tier=thorough cfg=x86std t=5400 role=memmem-rfind-oneshot uw=is_equal_raw:3;Hash:6;rabinkarp::Finder::new:6;rabinkarp::FinderRev::new:6;find_raw:12;rfind_raw:12;oracle:6], 4, meta::oneshot::<4, 10>(true));
 
-inst!(b_twoway_fwd_n3_8, [props=C12+C03 xprops=C05+C14 tier=quick cfg=x86std t=1800 role=twoway-fwd uw=@TW:3:8;oracle:5], 4, blocks::twoway_n::<3, 8>(false));
-inst!(b_twoway_rev_n3_8, [props=C12+C04 xprops=C05+C14 tier=quick cfg=x86std t=1800 role=twoway-rev uw=@TW:3:8;oracle:5], 4, blocks::twoway_n::<3, 8>(true));
-inst!(b_twoway_fwd_n4_7, [props=C12+C03 xprops=C05+C14 tier=quick cfg=x86std t=1800 role=twoway-fwd uw=@TW:4:7;oracle:6], 4, blocks::twoway_n::<4, 7>(false));
-inst!(b_twoway_rev_n4_7, [props=C12+C04 xprops=C05+C14 tier=quick cfg=x86std t=1800 role=twoway-rev uw=@TW:4:7;oracle:6], 4, blocks::twoway_n::<4, 7>(true));
+inst!(b_twoway_fwd_n3_8, [props=C12+C03+C08 xprops=C05+C14 tier=quick cfg=x86std t=1800 role=twoway-fwd uw=@TW:3:8;oracle:5], 4, blocks::twoway_n::<3, 8>(false));
+inst!(b_twoway_rev_n3_8, [props=C12+C04+C08 xprops=C05+C14 tier=quick cfg=x86std t=1800 role=twoway-rev uw=@TW:3:8;oracle:5], 4, blocks::twoway_n::<3, 8>(true));
+inst!(b_twoway_fwd_n4_7, [props=C12+C03+C08 xprops=C05+C14 tier=quick cfg=x86std t=1800 role=twoway-fwd uw=@TW:4:7;oracle:6], 4, blocks::twoway_n::<4, 7>(false));
+inst!(b_twoway_rev_n4_7, [props=C12+C04+C08 xprops=C05+C14 tier=quick cfg=x86std t=1800 role=twoway-rev uw=@TW:4:7;oracle:6], 4, blocks::twoway_n::<4, 7>(true));
 
 inst!(b_twoway_rev_n5_9, [props=C12+C04 xprops=C05+C14 tier=thorough cfg=x86std t=5400 role=twoway-rev uw=@TW:5:9;oracle:7], 4, blocks::twoway_n::<5, 9>(true));
 inst!(b_twoway_fwd_n5_9, [props=C12+C03 xprops=C05+C14 tier=thorough cfg=x86std t=5400 role=twoway-fwd uw=@TW:5:9;oracle:7], 4, blocks::twoway_n::<5, 9>(false));
